@@ -295,3 +295,33 @@ func TestProp(t *testing.T) {
 }
 
 func TestReplay(t *testing.T) { pbt.Replay(t, rec) }
+
+// FuzzTerminate: native coverage-guided search (thorough tier). The engine's own hang detector
+// reports an execution that does not return; the read-volume bounds are checked here.
+func FuzzTerminate(f *testing.F) {
+	for _, s := range gen.Corpus() {
+		if len(s.Data) <= 4096 {
+			f.Add(byte(0), s.Data)
+		}
+	}
+	for _, m := range gen.Magics {
+		f.Add(byte(1), append(append([]byte{}, m...), make([]byte, 80)...))
+	}
+	f.Fuzz(func(t *testing.T, sel byte, data []byte) {
+		if len(data) > 1<<16 {
+			return
+		}
+		entry := worker.Entries[int(sel)%len(worker.Entries)]
+		r := worker.Exec(worker.Req{Entry: entry, Input: data})
+		if r.Panic != "" {
+			return // C01's subject
+		}
+		n := len(data)
+		if r.Requested > int64(4*n+64<<10) {
+			t.Fatalf("%s requested %d bytes for a %d-byte input (limit %d), %d Read calls", entry, r.Requested, n, 4*n+64<<10, r.ReadCalls)
+		}
+		if r.ReadCalls > int64(n+1024) {
+			t.Fatalf("%s made %d Read calls for a %d-byte input", entry, r.ReadCalls, n)
+		}
+	})
+}
